@@ -5,11 +5,12 @@ M: Gen_Sdl.tla string-builder machine: on every text of <= 3 atoms the reference
    write_description, write_quoted, specifiedBy) round-trips exactly when its trigger predicate is false.
 G: every text of <= N atoms placed in every string slot of a base type system (descriptions at three indentation
    levels, deprecation reasons, string defaults, specifiedBy URL) under the options that reach the string printers;
-   the base type system and the valid type systems of the C33 builder machine under (all / seeded) option
-   combinations; derive-built schemas under all option combinations; thorough: seeded random type systems decorated
+   the base type system, its federation variants (entities) and the valid type systems of the C33 builder machine
+   under (all / seeded) option combinations; derive-built schemas under all option combinations; thorough: seeded random type systems decorated
    with random tricky strings.
 harness: dynamic (or derive-built) schema -> sdl_with_options -> parser::parse_schema -> flat facts; strings as raw tokens.
-V: SdlTrace.tla: the document parses and Observed = Describe(ts, opts), strings read by Sdl!Denote."""
+V: SdlTrace.tla: the document parses, Observed = Describe(ts, opts) (strings read by Sdl!Denote) and the document is
+   closed: every type it names is defined in it or built in."""
 import itertools, json, os, random, sys
 sys.path.insert(0, os.path.join(os.path.dirname(os.path.abspath(__file__)), "..", "lib"))
 import vlib
@@ -17,7 +18,7 @@ from tsgen import norm_ts, random_ts
 
 OPT_FLAGS = ["sorted_fields", "sorted_arguments", "sorted_enum_items", "federation", "prefer_single_line_descriptions",
              "include_specified_by", "compose_directive"]
-STATIC = ["plain", "reason", "default", "ifacedir", "dirarg"]
+STATIC = ["plain", "reason", "default", "ifacedir", "dirarg", "entity"]
 STATIC_DEV = {"ifacedir": "DevInterfaceDirectiveBeforeImplements"}
 ATOMS = [[34], [34, 34, 34], [92], [10], [13], [32], [97], [1], [27], [128512], [98, 99]]
 
@@ -99,7 +100,7 @@ def body(c):
     g = vlib.run_tlc("gql/Gen_Sdl.tla", cfg, workers=4, timeout=1800, keep_lines=50, xmx="8g")
     c.add_tlc("G string builder, <= %d atoms, all slots" % natoms, g)
     cfg2 = c.path("GenTs.cfg")
-    universes = ["Chain", "Args", "ImplObject3"] if c.quick else ["Chain", "Args", "ImplObject6", "ImplInterface3", "Roots"]
+    universes = ["Chain", "Args"] if c.quick else ["Chain", "Args", "ImplObject6", "ImplInterface3", "Roots"]
     with open(cfg2, "w") as f:
         f.write("CONSTANT Universes = {%s}\nINIT Init\nNEXT Next\nINVARIANT Emit\n" % ", ".join('"%s"' % u for u in universes))
     g2 = vlib.run_tlc("gql/Gen_SchemaCheck.tla", cfg2, workers=4, timeout=1800, keep_lines=50, xmx="8g", metadir=c.path("tlc-G2"))
@@ -121,17 +122,19 @@ def body(c):
         x = json.loads(s)
         cases.append({"src": "string", "slot": x["slot"], "flavour": "dynamic", "opts": x["opts"], "ts": norm17(x["ts"])})
     n_string = len(cases)
-    base = [json.loads(t[1]) for t in g.tagged("BASE")]
-    if len(base) != 1:
-        raise vlib.ToolError("generator printed %d base type systems" % len(base))
+    base = {t[1]: t[2] for t in g.tagged("BASE")}
+    if sorted(base) != ["fedIO", "fedNone", "fedO", "plain"]:
+        raise vlib.ToolError("generator printed base type systems %s" % sorted(base))
     options = list(all_options())
-    for o in options:
-        cases.append({"src": "options", "slot": "", "flavour": "dynamic", "opts": o, "ts": norm17(json.loads(json.dumps(base[0])))})
+    # the base type system and its federation variants (entities / no entities) under every option combination
+    for variant in (["plain", "fedO", "fedNone"] if c.quick else sorted(base)):
+        for o in options:
+            cases.append({"src": "options:" + variant, "slot": "", "flavour": "dynamic", "opts": o, "ts": norm17(json.loads(base[variant]))})
     for u, s in sorted(set((t[1], vlib.canon(norm17(json.loads(t[2])))) for t in g2.tagged("REPLAY"))):
         for o in rng.sample(options, 1):
             cases.append({"src": u, "slot": "", "flavour": "dynamic", "opts": o, "ts": json.loads(s)})
     for name in STATIC:
-        for o in (rng.sample(options, 24) if c.quick else options):
+        for o in (options if name == "entity" or not c.quick else rng.sample(options, 24)):
             cases.append({"src": "static", "slot": "", "flavour": "static:" + name, "opts": o, "ts": {}})
     if not c.quick:
         for _ in range(8000):
@@ -191,7 +194,7 @@ def body(c):
     c.cov["exhaustive"] = True
     c.cov["verdict_counts"] = counts
     c.cov["rule"] = ("G: every text of <= %d atoms (texts of 3 atoms in 5 of the 12 slots) over {\", \"\"\", \\, LF, CR, SP, a, U+0001, U+001B, U+1F600} (TLC BFS) in each of 12 string slots of a base "
-                     "type system (%d cases, descriptions under prefer_single_line x {tab, 2 spaces}); the base type system under all %d option combinations; "
+                     "type system (%d cases, descriptions under prefer_single_line x {tab, 2 spaces}); the base type system and its federation variants (entity keys on an object / an object and an interface / federation enabled without entities) under all %d option combinations; "
                      "valid type systems of the C33 builder machine (%s) under seeded option combinations; %d derive-built schemas under all option "
                      "combinations%s; non-trivial = a valid type system that built and was exported; distinct by (type system, options, flavour)"
                      % (natoms, n_string, len(options), ",".join(universes), len(STATIC), "" if c.quick else "; 8000 seeded random decorated type systems"))
